@@ -405,12 +405,13 @@ def fmt_int(ctx, v, conv, width=0, fill=' ', prefix=''):
         raise Unsupported("fmt_int of %r" % (v,))
     if ctx is not None and width > 0 and width <= 16:
         base = 10 if conv == 'd' else 16
-        if ctx.is_true(z3.And(v >= 0, v < base ** width)):
+        known_byte = v.get_id() in getattr(ctx, 'byte_terms', ()) and base ** width >= 256
+        if known_byte or ctx.is_true(z3.And(v >= 0, v < base ** width)):
             # value provably fits the field: exactly `width` characters
             chars = []
             for i in range(width):
                 p = base ** (width - 1 - i)
-                d = (v / I(p)) % I(base)
+                d = (v / I(p)) % I(base) if i > 0 else v / I(p)      # v < base**width: the top digit needs no mod
                 dig = (d + 48) if base == 10 else hexdigit(d, conv == 'X')
                 if fill != '0' and i < width - 1:
                     dig = z3.If(v < p, I(ord(fill)), dig)
@@ -741,6 +742,44 @@ def str_strip(ctx, s, chars, mode):
         raise Unsupported("strip with symbolic chars")
     if isinstance(s, Choice):
         return s.map(lambda v: getattr(v, name)(chars))
+    if isinstance(s, SStr) and s.all_chars() and chars is not None and len(s.segs) <= 128:
+        # exact on concrete-shape strings when the path condition determines which end characters are in `chars`
+        cs = list(s.segs)
+        codes = [ord(c) for c in chars]
+
+        def status(x):
+            if isinstance(x, int):
+                return x in codes
+            c = simp(z3.Or(*[x == k for k in codes]))
+            if ctx.is_true(c):
+                return True
+            if ctx.is_true(z3.Not(c)):
+                return False
+            return None
+        determined = True
+        if mode in ('b', 'r'):
+            while cs:
+                st = status(cs[-1])
+                if st is None and chars == '\n':
+                    # line-ending idiom: fork on a trailing newline
+                    st = ctx.decide(cs[-1] == 10)
+                if st is None:
+                    determined = False
+                    break
+                if not st:
+                    break
+                cs.pop()
+        if determined and mode in ('b', 'l'):
+            while cs:
+                st = status(cs[0])
+                if st is None:
+                    determined = False
+                    break
+                if not st:
+                    break
+                cs.pop(0)
+        if determined:
+            return mkstr(cs)
     ctx.assumed_models.add("str.strip/rstrip/lstrip on symbolic text: function of (string, chars)")
     f = ufun('%s_%s' % (name, 'ws' if chars is None else '_'.join('%02x' % ord(c) for c in chars)), PyStr, PyStr)
     return mkstr([Opq(f(str_term(s)))])
